@@ -378,7 +378,7 @@ def gen_state(rng, conf, now, n_others=None, observer=None, role=None, wellforme
     need = majority_need(n_others)
     tracked = others + readonly
     # match indices around a target index so that counts land at / just below the majority
-    target = rng.randint(commit, last + 1)
+    target = rng.randint(min(commit, last), last + 1)
     k_match = rng.choice([max(need - 2, 0), max(need - 2, 0), need - 1, need - 1, n_others])
     perm = others[:]
     rng.shuffle(perm)
